@@ -27,8 +27,7 @@ Definition after_b (c d : fdesc) : bool := Nat.ltb (fd_close d) (fd_start c).
 Definition shape_b (ts : list token) (d : fdesc) : bool :=
   Nat.leb (fd_start d) (fd_name d) && Nat.ltb (fd_name d) (fd_hend d) && Nat.leb (fd_hend d) (fd_open d) &&
   matched_b ts (fd_open d) (fd_close d) && Nat.ltb (fd_close d) (length ts) &&
-  forallb (fun k => negb (sym_at ts k lbrace) && negb (sym_at ts k rbrace)) (seq (fd_hend d) (fd_open d - fd_hend d)) &&
-  negb (sym_at ts (S (fd_close d)) lbrace).
+  forallb (fun k => negb (sym_at ts k lbrace) && negb (sym_at ts k rbrace)) (seq (fd_hend d) (fd_open d - fd_hend d)).
 
 Fixpoint sorted_b (ds : list fdesc) : bool :=
   match ds with
@@ -61,11 +60,11 @@ Theorem wf_descs_b_sound ts ds : wf_descs_b ts ds = true -> wf_descs ts ds.
 Proof.
   unfold wf_descs_b. intros H. apply andb_prop in H as [Hs Ho]. constructor.
   - apply Forall_forall. intros d Hd. rewrite forallb_forall in Hs. apply Hs in Hd. unfold shape_b in Hd.
-    apply andb_prop in Hd as [Hd H7]. apply andb_prop in Hd as [Hd H6]. apply andb_prop in Hd as [Hd H5].
+    apply andb_prop in Hd as [Hd H6]. apply andb_prop in Hd as [Hd H5].
     apply andb_prop in Hd as [Hd H4]. apply andb_prop in Hd as [Hd H3]. apply andb_prop in Hd as [H1 H2].
     apply Nat.leb_le in H1. apply Nat.ltb_lt in H2. apply Nat.leb_le in H3. apply Nat.ltb_lt in H5.
-    apply matched_b_sound in H4. apply negb_true_iff in H7.
-    split; [lia|]. split; [exact H3|]. split; [exact H4|]. split; [exact H5|]. split; [|exact H7].
+    apply matched_b_sound in H4.
+    split; [lia|]. split; [exact H3|]. split; [exact H4|]. split; [exact H5|].
     intros k Hk. rewrite forallb_forall in H6.
     assert (Hin : In k (seq (fd_hend d) (fd_open d - fd_hend d))) by (apply in_seq; lia).
     apply H6 in Hin. apply andb_prop in Hin as [Ha Hb]. apply negb_true_iff in Ha. apply negb_true_iff in Hb.
